@@ -183,4 +183,16 @@ theorem fma_apx (a b c : Nat) (va vb vc ρa ρb ρc σ : ℝ) (ha : Apx a va ρa
   have hp0 := abs_nonneg (toReal a * toReal b + toReal c)
   nlinarith
 
+/-- the fused multiply-add of finite operands is a well-formed bit pattern -/
+theorem fma_wf_fin (a b c : Nat) (ha : Finite a) (hb : Finite b) (hc : Finite c) : WF (fma a b c) := by
+  obtain ⟨n1, m1, e1, h1⟩ := ha
+  obtain ⟨n2, m2, e2, h2⟩ := hb
+  obtain ⟨n3, m3, e3, h3⟩ := hc
+  unfold fma
+  rw [h1, h2, h3]
+  dsimp only
+  split
+  · exact signBit_wf _
+  · exact roundPack_wf _ _ _
+
 end F32
